@@ -236,8 +236,9 @@ func watchdog(r *mon.Run) {
 
 func replayOne(t *testing.T, r *mon.Run, stage string) bool {
 	var rc struct {
-		Cur  string `json:"cur"`
-		Prev string `json:"prev"`
+		Cur     string   `json:"cur"`
+		Prev    string   `json:"prev"`
+		Cursors []string `json:"cursors"` // a crash witness: what each worker was doing when the process died
 	}
 	ok, err := mon.ReplayCase(stage, &rc)
 	if !ok {
@@ -246,6 +247,22 @@ func replayOne(t *testing.T, r *mon.Run, stage string) bool {
 	if err != nil {
 		t.Fatal(err)
 	}
+	curs := append([]string{rc.Cur}, rc.Cursors...)
+	for _, cur := range curs {
+		if cur != "" {
+			fmt.Printf("replaying %s\n", mon.Q(cur))
+			replayCur(r, stage, cur, rc.Prev)
+		}
+	}
+	r.NontrivialN(2)
+	if r.Finish() > 0 {
+		t.Fail()
+	}
+	return true
+}
+
+func replayCur(r *mon.Run, stage, cur, prev string) {
+	rc := struct{ Cur, Prev string }{cur, prev}
 	kind, payload, _ := strings.Cut(rc.Cur, ":")
 	switch kind {
 	case "s":
@@ -262,11 +279,6 @@ func replayOne(t *testing.T, r *mon.Run, stage string) bool {
 		tw.one(net.IP(ip), net.IPMask(mask))
 		r.Eval(tw.calls)
 	}
-	r.NontrivialN(2)
-	if r.Finish() > 0 {
-		t.Fail()
-	}
-	return true
 }
 
 func driveStrings(r *mon.Run, stage string, fams []gen.Family) {
